@@ -1,4 +1,5 @@
 """C08 — error messages are total (rendering never raises), deterministic and complete."""
+import os
 import re
 
 from .. import env, genval, gentypes, drive, model
@@ -27,7 +28,7 @@ ANCHORS = ['errors:WrongTypeError.print_error', 'errors:WrongLenError.print_erro
            'errors:ErrorNode.__str__', 'errors:ConvertError.__str__']
 MIN_COUNTERS = {'quick': {'trees_rendered': 25000, 'fused_chains': 1500, 'nested_sums': 150, 'causes_checked': 1500,
                           'missing_names': 2000, 'extra_names': 2000, 'duplicate_nodes': 500, 'wronglen_nodes': 300,
-                          'mixed_kind_extras': 100, 'unprintable_value_messages': 20}}
+                          'mixed_kind_extras': 100, 'unprintable_value_messages': 20, 'hash_seed_renderings': 6, 'fused_chain_cases': 300}}
 
 E = env.m_errors
 
@@ -202,6 +203,82 @@ def run(ctx):
         return gentypes.gen_type(rng, rng.choice((1, 2, 2, 3)))
 
     drive.for_each_case(ctx, 'main', ctx.budget, body, gen=gen_main)
+
+    # chains of product nodes that the renderer fuses into one dotted path ('mid.inner.x'): three and more levels, with a node in the
+    # MIDDLE of the chain that also has a missing or an unexpected field of its own - nothing may get lost in the fusing
+    def body_fuse_chain(i, rng, ty_unused, T_unused):
+        F, CM = gentypes.FieldM, gentypes.ClassM
+        n = rng.randrange(10 ** 6)
+        inner = Ty('dc', spec=CM(f"KFI{n}", [F('x_val', Ty('int'))], {}))
+        mid_opts = rng.choice(({}, {'allow_extra': False}))
+        mid = Ty('dc', spec=CM(f"KFM{n}", [F('inner_val', inner), F('width', Ty('int')), F('note', Ty('str'), 'val', 'n')], mid_opts))
+        wrap = rng.choice(('field', 'list', 'dict', 'field-in-field'))
+        if wrap == 'field':
+            top = Ty('dc', spec=CM(f"KFO{n}", [F('mid_one', mid)], {}))
+            place = lambda m: {'mid_one': m}
+        elif wrap == 'list':
+            top, place = Ty('list', [mid]), (lambda m: [m])
+        elif wrap == 'dict':
+            top, place = Ty('dict', [Ty('str'), mid]), (lambda m: {'k': m})
+        else:
+            outer = Ty('dc', spec=CM(f"KFO{n}", [F('mid_one', mid)], {}))
+            top = Ty('dc', spec=CM(f"KFT{n}", [F('outer_one', outer)], {}))
+            place = lambda m: {'outer_one': {'mid_one': m}}
+        Ttop, err = build_type(top)
+        if err is not None:
+            return
+        fault = rng.choice(('missing-in-the-middle', 'extra-in-the-middle', 'both'))
+        m = {'inner_val': {'x_val': 'bad'}}
+        if fault in ('extra-in-the-middle', 'both'):
+            m['zz_unknown'] = 1
+        if fault == 'extra-in-the-middle':
+            m['width'] = 2
+        v = place(m)
+        out = observe(env.from_data, v, Ttop)
+        ctx.count('fused_chain_cases')
+        ctx.case(('fuse-chain', wrap, fault, out.kind), nontrivial=True)
+        if out.kind == 'converr':
+            render_check(i, 'fuse-chain', top, Ttop, v, out)
+            text = observe(str, out.exc)
+            want = (["Missing required field"] if fault != 'extra-in-the-middle' else []) + (["Unexpected field"] if fault != 'missing-in-the-middle' else []) + ['x_val']
+            if text.kind == 'value' and not all(w in text.val for w in want):
+                ctx.violation('message-complete', 'fuse-chain', i, {'type': describe(top), 'value': short(v, 200), 'text': short(text.val, 600), 'must_mention': want},
+                              mech='missing-token:fused-chain-drops-a-middle-node')
+        elif out.kind == 'escape':
+            no_text(i, 'fuse-chain', top, v, out)
+
+    from ..common import build_type
+    drive.for_each_case(ctx, 'fuse-chain', 40, body_fuse_chain, gen=lambda c, r: Ty('int'))
+
+    # deterministic also from one run of the program to the next: the same failed conversions rendered by fresh interpreters under
+    # different string-hash seeds (missing / unexpected fields are kept in sets) give the same text
+    if ctx.shard == 0:
+        import subprocess as _sp
+        import sys as _sys
+        script = (
+            "import typing as t, pane\n"
+            "class Inner(pane.PaneBase):\n    alpha: int\n    beta_two: int\n    gamma: int\n    delta_four: int\n    epsilon: int = 0\n"
+            "class Outer(pane.PaneBase):\n    first_one: int\n    second: Inner\n    third: t.List[Inner]\n    fourth: int\n    fifth_field: int\n"
+            "cases = [(Outer, {'zz': 1, 'yy': 2, 'xx': 3, 'ww': 4, 'second': {'q1': 1, 'q2': 2, 'q3': 3}, 'third': [{'alpha': 1, 'k1': 1, 'k2': 2}]}),\n"
+            "         (Inner, {'extra_one': 1, 'extra_two': 2, 'extra_three': 3, 'extra_four': 4, 'extra_five': 5}),\n"
+            "         ({'aa': int, 'bb': int, 'cc': int, 'dd': int}, {'x1': 1, 'x2': 2, 'x3': 3}),\n"
+            "         (t.Dict[str, Inner], {'k': {'u1': 1, 'u2': 2, 'u3': 3}})]\n"
+            "for T, v in cases:\n"
+            "    try:\n        pane.from_data(v, T); print('ACCEPTED')\n"
+            "    except pane.errors.ConvertError as e:\n        print(str(e)); print('=====')\n")
+        texts = {}
+        for hs in ('0', '1', '2', '3', '4', '5'):
+            r = _sp.run([_sys.executable, '-B', '-c', script], env={**os.environ, 'PYTHONHASHSEED': hs, 'PYTHONPATH': env.PANE_REPO}, capture_output=True, text=True, timeout=120)
+            texts[hs] = r.stdout if r.returncode == 0 else f"<exit {r.returncode}> {r.stderr[-300:]}"
+            ctx.count('hash_seed_renderings')
+        distinct = sorted(set(texts.values()))
+        ctx.case(('hash-seeds', len(distinct)), nontrivial=True)
+        if len(distinct) != 1 or 'Missing required field' not in distinct[0] or 'Unexpected field' not in distinct[0]:
+            a, b = distinct[0], distinct[-1]
+            from ..common import _first_difference
+            ctx.violation('rendering-deterministic', 'hash-seeds', 0, {'interpreters': 'six fresh ones, PYTHONHASHSEED 0..5', 'distinct_texts': len(distinct),
+                                                                      'first_difference': _first_difference(a, b) if len(distinct) > 1 else None, 'text': short(a, 400)},
+                          mech='text-depends-on-the-string-hash-seed' if len(distinct) > 1 else 'hash-seed-script-did-not-render')
 
     # refused values that cannot be printed (an int too long for str()): the text is still there, twice the same, and names the path
     if ctx.shard == 0:
